@@ -71,7 +71,9 @@ func (f *fetcher) handleUpstream200(req *http.Request, resp *http.Response, key 
 
 	slog.Debug("Caching response...", "status", resp.Status, "url", req.URL, "key", key)
 
-	lastModified := time.Now()
+	// Only a Last-Modified the origin sent is a validator: without one the zero time is stored,
+	// which is neither used for revalidation nor handed to clients.
+	var lastModified time.Time
 	if t, err := http.ParseTime(resp.Header.Get("Last-Modified")); err == nil {
 		lastModified = t
 	}
